@@ -114,6 +114,14 @@ func (env *SEnv) call(e *SExpr) *SVal {
 		n.cur = env.old
 		n.old = env.old
 		return n.eval(e.Args[0])
+	case "entry":
+		// entry(e): the value e had when the loop was first reached (only in loop invariants)
+		if env.loopEntry == nil {
+			env.fail("entry() is only available in loop invariants")
+		}
+		n := *env
+		n.cur = env.loopEntry
+		return n.eval(e.Args[0])
 	case "withold":
 		// withold(place, e): e evaluated in the current state with the location `place` put back to its entry value
 		if env.old == nil {
